@@ -136,8 +136,26 @@ def _sd(default):
     return default if SEED_OVERRIDE[0] is None else SEED_OVERRIDE[0]
 
 
+def frame_by_route(F_, route, seed, fchans=3, tchans=2, zeros=np.zeros):
+    """the same seeded 2 x fchans frame (df=2, dt=4) through each construction route that takes a seed"""
+    bk = dict(obs_length=4.0 * tchans, sample_rate=8.0, num_branches=4, fftlength=1, int_factor=8, fch1=4096.0, ascending=False)
+    if route == 'from_data':
+        return F_.from_data(2.0, 4.0, 4096.0, False, zeros((tchans, fchans)), seed=seed)
+    if route == 'shape':
+        return F_(shape=(tchans, fchans), df=2.0, dt=4.0, fch1=4096.0, seed=seed)
+    if route == 'backend_fchans':
+        return F_.from_backend_params(fchans=fchans, seed=seed, **bk)
+    if route == 'backend_data':
+        return F_.from_backend_params(data=zeros((tchans, fchans)), seed=seed, **bk)
+    return F_(fchans=fchans, tchans=tchans, df=2.0, dt=4.0, fch1=4096.0, seed=seed)
+
+
+ROUTES = ('from_data', 'shape', 'backend_fchans', 'backend_data')
+
+
 def scen_frame(kind):
-    fr = FR.Frame(fchans=3, tchans=2, df=2.0, dt=4.0, fch1=4096.0, seed=_sd(11))
+    kind, _, route = kind.partition('@')
+    fr = frame_by_route(FR.Frame, route, _sd(11), zeros=lambda shp: npx.sarr(np.zeros(shp).astype(object)))
     if kind == 'chi2':
         return [fr.add_noise(Sym(z3.Real('x_mean'))), fr.data]
     if kind == 'gaussian':
@@ -728,8 +746,8 @@ def replay_seeded(p):
     for rep in range(2):
         np.random.seed(rep)      # perturb the legacy global state between repetitions
         if p['group'] == 'frame':
-            fr = stg.Frame(fchans=8, tchans=4, df=2.0, dt=4.0, fch1=4096.0, seed=sd(11))
-            k = p['kind']
+            k, _, route = p['kind'].partition('@')
+            fr = frame_by_route(stg.Frame, route, sd(11), fchans=8, tchans=4)
             arrs = [np.array([1.0, 2.0, 3.0]), np.array([0.1, 0.2, 0.3]), np.array([0.0, 0.5, 0.7])]
             if k == 'chi2':
                 o = fr.add_noise(3.0)
@@ -783,6 +801,8 @@ def main():
     jobs = []
     for k in FRAME_SCEN:
         jobs.append(('job_no_hidden_input', ('frame', k)))
+    for route in ROUTES:
+        jobs.append(('job_no_hidden_input', ('frame', f'chi2@{route}')))
     for sv in (0, 'np0'):
         for k in ('chi2', 'obs_gauss_share', 'rfi_path', 'pulse_profile'):
             jobs.append(('job_no_hidden_input', ('frame', k, sv)))
